@@ -129,7 +129,7 @@ C13_STREAMS = [
     ("mem", "F-", 3, 6, 0, 2, 3, "quick", 600),
     ("mem", "G", 3, 0, 5, 2, 3, "quick", 600),
     ("mem", "F- G", 3, 4, 3, 2, 2, "thorough", 1800),
-    ("mem", "F+", 7, 9, 0, 2, 3, "thorough", 1800),
+    ("mem", "F+", 7, 8, 0, 2, 2, "thorough", 1800),
 ]
 C14_STREAMS = [
     ("rev", "F+", 3, 5, 0, 2, 2, "quick", 600),
